@@ -1093,3 +1093,54 @@ func apiMiniConvert(c *Ctx) {
 	}
 	c.Held(cell, fmt.Sprintf("len=%d", minInt(len(txt), 12)))
 }
+
+// apiMiniRoundTrip (C12): the values of added options survive Write + Parse into an identical fresh parser.
+func apiMiniRoundTrip(c *Ctx) {
+	seedR := c.Sub("api-mini")
+	salt := seedR.Intn(1 << 30)
+	ma := buildMiniMode(NewRand("C12mini", c.Seed, c.K, uint64(salt)), "plain")
+	mb := buildMiniMode(NewRand("C12mini", c.Seed, c.K, uint64(salt)), "plain")
+	r := c.Sub("api-mini-vec")
+	var args []string
+	for i, n := 0, r.Range(0, 4); i < n; i++ {
+		o := ma.Opts[r.Intn(len(ma.Opts))]
+		args = append(args, "--"+o.Full+"="+apiGood[o.Kind][r.Intn(len(apiGood[o.Kind]))])
+	}
+	wo := flags.IniOptions(r.Intn(8))
+	c.Case(func() interface{} {
+		return map[string]interface{}{"program": ma.Desc, "argv_that_sets_the_values": fmt.Sprintf("%q", args), "IniOptions": int(wo)}
+	})
+	var ea, eb error
+	var sb strings.Builder
+	pa := safely(func() {
+		_, ea = ma.P.ParseArgs(args)
+		flags.NewIniParser(ma.P).Write(&sb, wo)
+	})
+	text := sb.String()
+	c.Note("ini", clip(text, 2000))
+	if pa != nil {
+		c.Violate("api-added-option:panic:"+panicSite(pa.Stack), "parse / Write panicked: %s", pa.Value)
+		return
+	}
+	if ea != nil {
+		c.Violate("api-added-option:rejected", "valid vector rejected: %v", ea)
+		return
+	}
+	pb := safely(func() { eb = flags.NewIniParser(mb.P).Parse(strings.NewReader(text)) })
+	c.Count("documents", 1)
+	if pb != nil {
+		c.Violate("api-added-option:panic:"+panicSite(pb.Stack), "reading the written text panicked: %s", pb.Value)
+		return
+	}
+	if eb != nil {
+		c.Violate("api-added-option:written-text-unreadable", "the text written for a parser with added options is rejected by the reader: %v", eb)
+		return
+	}
+	for j, o := range ma.Opts {
+		if ga, gb := o.current(), mb.Opts[j].current(); ga != gb {
+			c.Violate("api-added-option:round-trip:"+o.Kind, "%s: held %s when written, holds %s after reading", o.describe(), ga, gb)
+			return
+		}
+	}
+	c.Held("api-added/round-trip", fmt.Sprintf("opts=%d n=%d", int(wo), len(args)))
+}
